@@ -207,6 +207,17 @@ def _check_set_init(r, f, n):
         while e[0] == 'cast':
             e = e[4]
         return e[0] == 'local' and e[1] == R
+    # no element is passed over: between looking at an element's capacity and moving on (next element, loop head, return,
+    # the panic for n > capacity) one of its two set_init calls runs — with an extra "nothing to do here" exit, n == 0 on
+    # buffers without spare capacity falls through to the panic
+    nxt = [l for l, t in f.calls() if (t.get('callee') or '') == 'std::iter::Iterator::next']
+    panics = [l for l, t in f.calls() if 'panic' in (t.get('callee') or '') and not f.blocks[l[0]]['cleanup']]
+    for pl, pt in parts:
+        if pt.get('target') is None:
+            continue
+        others = [l for l, _ in parts if l != pl] + nxt + panics + f.returns()
+        hit = f.forward_paths_hit([Loc(pt['target'], 0)], others, blockers=[l for l, _ in inits])
+        r.require(hit is None, name + '/element-skipped', 'an element can be passed over without either set_init call (an extra exit next to the full/partial arms): the distribution of n bytes then ends in the final panic although the bytes fit (e.g. n == 0 with buffers that have no spare capacity)', f.where(hit[0]) if hit else '')
     for pl, pt in parts:
         # the capacity test of this element: the nearest comparison behind parts_mut that involves the counter
         sw = None
